@@ -174,8 +174,10 @@ def Fp.addSub (sign : Int) (f g : Fp) : Except Err Fp :=
     if f.bits ≠ g.bits then .error .bitsValue
     else
       let k := resultKind f g
-      let u := uniq (f.idx ++ g.idx)
-      .ok ⟨k, f.bits, resultLevel f g, u, u.map (fun i => (i, coerce k (f.count i + sign * g.count i)))⟩
+      let val := fun i => coerce k (f.count i + sign * g.count i)
+      -- `__sub__` drops positions whose counts cancel; `__add__` keeps every position
+      let u := (uniq (f.idx ++ g.idx)).filter (fun i => sign = 1 || decide (val i ≠ 0))
+      .ok ⟨k, f.bits, resultLevel f g, u, u.map (fun i => (i, val i))⟩
 
 /-- `f * x` -/
 def Fp.mul (f : Fp) (x : Rat) : Except Err Fp := do
